@@ -251,10 +251,13 @@ Proof. unfold notify_refresh. destruct (slab_get (w_archs w) ai); reflexivity. Q
 (* C02 / C17 for despawn's row removal: it succeeds on a consistent store (no unchecked step
    fails), keeps the store consistent, makes exactly that entity disappear, and leaves every
    component of every other entity as it was *)
-Theorem remove_entity_ok w ai row a e vals :
+Theorem remove_entity_ok_full w ai row a e vals :
   StoreInv w -> arch_at w ai = Some a -> nget (a_rows a) row = Some (e, vals) ->
   exists w', remove_entity w (ai, row) = ROk tt w' /\ StoreInv w' /\
-             sm_get e (w_ents w') = None /\ (forall k c, k <> e -> abs w' k c = abs w k c).
+             sm_get e (w_ents w') = None /\ (forall k c, k <> e -> abs w' k c = abs w k c) /\
+             w_archs w' = slab_set (w_archs w) ai (set_rows a (swap_remove (a_rows a) row)) /\ w_aby w' = w_aby w /\
+             (forall k, k <> e -> sm_get k (w_ents w) = None -> sm_get k (w_ents w') = None) /\
+             (forall k, k <> e -> sm_get k (w_ents w) <> None -> sm_get k (w_ents w') <> None).
 Proof.
   intros Hinv Ha Hrow. pose proof Hinv as (Hsm & Hl & Hr).
   destruct (remove_row_ents_some w ai row a e vals Hinv Ha Hrow) as (ents' & Hrem).
@@ -274,7 +277,7 @@ Proof.
                                                | None => RFail (FUB 532) w3 end
                              | None => ROk tt w3 end) = ROk tt w4 /\
                             w_ents w4 = w_ents (remove_row_result w ai row a ents') /\
-                            w_archs w4 = w_archs (remove_row_result w ai row a ents')).
+                            w_archs w4 = w_archs (remove_row_result w ai row a ents') /\ w_aby w4 = w_aby w).
   { unfold remove_row_result. fold a1. destruct (nget (a_rows a1) row) as [[de dv]|] eqn:Ed.
     - (* the displaced entity is live in the new entity map: it is a row of the new archetype *)
       assert (Hde : exists l, sm_get de ents' = Some l /\ fst l = ai).
@@ -294,17 +297,30 @@ Proof.
           exists (ai, nlen pre). split; [|reflexivity]. now rewrite (remove_get_other e (w_ents w) (ai, row) ents' de Hsm Hrem Hne). }
       destruct Hde as (l & Hgl & Hfl). cbn [w_ents set_ents] in *. unfold w3 at 1. cbn [w_ents set_ents]. rewrite Hgl.
       unfold set_loc. cbn [w_ents set_ents]. unfold w3 at 1. cbn [w_ents set_ents]. rewrite Hgl.
-      eexists. split; [reflexivity|]. cbn [w_ents w_archs set_ents set_archs]. split; [|reflexivity].
+      eexists. split; [reflexivity|]. cbn [w_ents w_archs set_ents set_archs]. split; [|split; [reflexivity|unfold w3, w1; cbn [w_aby set_ents set_archs]; apply fold_left_pres_aby]].
       change (w_ents w3) with ents'. apply upd_by_index_ext. intros s v Hs Hv. destruct (sm_get_some_inv _ _ _ Hgl) as (s' & Hs' & _ & Hv'). rewrite Hs in Hs'. inversion Hs'; subst.
       rewrite Hv in Hv'. inversion Hv'; subst. reflexivity.
-    - exists w3. split; [reflexivity|]. unfold w3. cbn [w_ents w_archs set_ents set_archs]. auto. }
-  destruct Hfin as (w4 & -> & E4 & A4). cbn [rbind].
+    - exists w3. split; [reflexivity|]. unfold w3. cbn [w_ents w_archs set_ents set_archs]. split; [reflexivity|split; [reflexivity|unfold w1; cbn [w_aby set_ents set_archs]; apply fold_left_pres_aby]]. }
+  destruct Hfin as (w4 & -> & E4 & A4 & B4). cbn [rbind].
   eexists. split; [reflexivity|].
   set (wf := if nlen (a_rows a1) =? 0 then notify_remove w4 ai else w4).
   assert (Ef : w_ents wf = w_ents (remove_row_result w ai row a ents')) by (unfold wf; destruct (_ =? 0); rewrite ?notify_remove_ents; exact E4).
   assert (Af : w_archs wf = w_archs (remove_row_result w ai row a ents')) by (unfold wf; destruct (_ =? 0); rewrite ?notify_remove_archs; exact A4).
   assert (Hinvf : StoreInv wf) by (eapply StoreInv_ext; eauto).
-  split; [exact Hinvf|]. split.
+  assert (Hdead : forall k, k <> e -> sm_get k (w_ents w) = None -> sm_get k (w_ents wf) = None).
+  { intros k Hke Hgk. rewrite Ef. unfold remove_row_result. fold a1.
+      assert (Hg : sm_get k ents' = None) by now rewrite (remove_get_other e (w_ents w) (ai, row) ents' k Hsm Hrem Hke).
+      destruct (nget (a_rows a1) row) as [[de dv]|] eqn:Ed; cbn [w_ents set_ents]; [|exact Hg].
+      destruct (N.eq_dec (fst k) (fst de)) as [Ei|Ei]; [|now rewrite upd_get_neq].
+      unfold upd_by_index. destruct (sget (slots ents') (fst de)) as [s|] eqn:Es; [|exact Hg].
+      destruct (val s) eqn:Ev; [|exact Hg]. unfold sm_get. cbn [slots]. rewrite Ei. erewrite sget_supd_eq by eauto. cbn [gen val].
+      unfold sm_get in Hg. rewrite Ei, Es in Hg. destruct (gen s =? snd k); [congruence|reflexivity]. }
+  assert (Bf : w_aby wf = w_aby w) by (unfold wf; destruct (_ =? 0); rewrite ?notify_remove_aby; exact B4).
+  assert (Hstay : forall k, k <> e -> sm_get k (w_ents w) <> None -> sm_get k (w_ents wf) <> None).
+  { intros k Hke Hk. destruct (sm_get k (w_ents w)) as [[aj rj]|] eqn:Hgk; [|congruence].
+    destruct (Hl _ _ _ Hgk) as (b & vb & Hb & Hnb). destruct (Hkeep k aj rj b vb Hke Hb Hnb) as (rj' & b' & Hb' & Hc' & Hn').
+    unfold arch_at in Hb'. rewrite <- Af in Hb'. destruct Hinvf as (_ & _ & Hrf). destruct (Hrf _ _ _ _ _ Hb' Hn') as [X _]. congruence. }
+  split; [exact Hinvf|]. split; [|split; [|split; [|split; [exact Bf|split; [exact Hdead|exact Hstay]]]]].
   - (* e is gone *)
     rewrite Ef. unfold remove_row_result. fold a1. assert (Hg : sm_get e ents' = None) by exact (remove_get_gone e (w_ents w) (ai, row) ents' Hsm Hrem).
     destruct (nget (a_rows a1) row) as [[de dv]|] eqn:Ed; cbn [w_ents set_ents]; [|exact Hg].
@@ -320,14 +336,15 @@ Proof.
       destruct (Hkeep k aj rj b vb Hke Hb Hnb) as (rj' & b' & Hb' & Hc' & Hn').
       unfold arch_at in Hb'. rewrite <- Af in Hb'.
       rewrite (abs_of_row wf aj b' rj' k vb c Hinvf Hb' Hn'), (abs_of_row w aj b rj k vb c Hinv Hb Hnb). now apply row_col_comps.
-    + rewrite (abs_dead w k c Hgk). apply abs_dead. rewrite Ef. unfold remove_row_result. fold a1.
-      assert (Hg : sm_get k ents' = None) by now rewrite (remove_get_other e (w_ents w) (ai, row) ents' k Hsm Hrem Hke).
-      destruct (nget (a_rows a1) row) as [[de dv]|] eqn:Ed; cbn [w_ents set_ents]; [|exact Hg].
-      destruct (N.eq_dec (fst k) (fst de)) as [Ei|Ei]; [|now rewrite upd_get_neq].
-      unfold upd_by_index. destruct (sget (slots ents') (fst de)) as [s|] eqn:Es; [|exact Hg].
-      destruct (val s) eqn:Ev; [|exact Hg]. unfold sm_get. cbn [slots]. rewrite Ei. erewrite sget_supd_eq by eauto. cbn [gen val].
-      unfold sm_get in Hg. rewrite Ei, Es in Hg. destruct (gen s =? snd k); [congruence|reflexivity].
+    + rewrite (abs_dead w k c Hgk). apply abs_dead. now apply Hdead.
+  - rewrite Af. unfold remove_row_result. fold a1. destruct (nget (a_rows a1) row) as [[de dv]|]; reflexivity.
 Qed.
+
+Theorem remove_entity_ok w ai row a e vals :
+  StoreInv w -> arch_at w ai = Some a -> nget (a_rows a) row = Some (e, vals) ->
+  exists w', remove_entity w (ai, row) = ROk tt w' /\ StoreInv w' /\
+             sm_get e (w_ents w') = None /\ (forall k c, k <> e -> abs w' k c = abs w k c).
+Proof. intros H1 H2 H3. destruct (remove_entity_ok_full w ai row a e vals H1 H2 H3) as (w' & A & B & C & D & _). eauto. Qed.
 
 (* ---------- moving a row to another archetype (archetype.rs:378-503) ---------- *)
 Section MoveRow.
